@@ -14,16 +14,16 @@ from ..core import digest
 META = {
     "title": "Empirical quantiles exact with ties / out of range",
     "level": "exploration",
-    "rule": ("exhaustive sub-space: every multiset of size 1..7 over a 6-letter alphabet, mapped to 4 value alphabets "
-             "(ints, 0.1*k reals, negatives, mixed magnitude), in sorted/reversed/shuffled order, queried at the 6 letters, 5 "
+    "rule": ("exhaustive sub-space: every multiset of size 1..7 over a 6-letter alphabet, mapped to 5 value alphabets "
+             "(ints, unsigned ints in uint8/32/64 storage, 0.1*k reals, negatives, mixed magnitude), in sorted/reversed/shuffled order, queried at the 6 letters, 5 "
              "mid-gaps, below-min and above-max (13 values), through greater_equal_ecdf, less_equal_ecdf, get_quantiles and "
              "binned_ecdf; plus random samples (10^2..10^5, heavy ties, int/float, list/array, cdf= precomputed). A query is "
              "non-trivial when v ties a value occurring >= 2 times, or v is outside the sample range, or strictly between two "
              "sample values; distinct = (alphabet, multiset, order, v)."),
     "assumptions": ["integer counting with numpy comparisons is the reference", "samples are finite (no NaN): the property's domain"],
     "deciding": ["stats.greater_equal_ecdf", "stats.less_equal_ecdf"],
-    "exhaustive_tiers": {"quick": {"multisets size<=7 over 6 letters": 1715, "value alphabets": 4, "orders": 3, "queries": 13},
-                         "thorough": {"multisets size<=7 over 6 letters": 1715, "value alphabets": 4, "orders": 3, "queries": 13}},
+    "exhaustive_tiers": {"quick": {"multisets size<=7 over 6 letters": 1715, "value alphabets": 5, "orders": 3, "queries": 13},
+                         "thorough": {"multisets size<=7 over 6 letters": 1715, "value alphabets": 5, "orders": 3, "queries": 13}},
 }
 
 MANIFEST = {
@@ -44,7 +44,9 @@ ALPHABETS = {
     "real": [0.0, 0.1, 0.2, 0.30000000000000004, 0.4, 0.5],
     "neg": [-5.5, -4.0, -2.5, -1.0, -0.5, -0.0],
     "mixed": [-1e9, -1e-9, 0.0, 1e-9, 1.0, 1e9],
+    "uint": [0, 1, 2, 3, 4, 5],          # stored in unsigned dtypes (event counts often are)
 }
+DTYPES = {"int": ["int64", "int32"], "uint": ["uint64", "uint8", "uint32"], "real": ["float64", "float32x"], "neg": ["float64"], "mixed": ["float64"]}
 
 
 def _stats():
@@ -206,10 +208,13 @@ def run(ctx):
                     queries[-2:] = [-2e9, 2e9]
                 orders = [vals, vals[::-1], [vals[i] for i in rng.permutation(size)]]
                 for oi, xv in enumerate(orders):
-                    dt = "int64" if aname == "int" else "float64"
+                    dts = DTYPES[aname]
+                    dt = dts[(ci + oi) % len(dts)]
+                    if dt == "float32x":
+                        dt = "float64"          # float32 samples would change the values themselves; kept as float64
                     xa = numpy.asarray(xv, dtype=dt)
                     for qi, q in enumerate(queries):
-                        qq = q if (aname != "int" or qi >= 6) else int(q)
+                        qq = q if (aname not in ("int", "uint") or qi >= 6) else int(q)
                         ctx.call(stats.greater_equal_ecdf, xa, qq)
                         ctx.call(stats.less_equal_ecdf, xa, qq)
                         ctx.call(stats.get_quantiles, xa if oi else xa.tolist(), qq)
@@ -237,14 +242,14 @@ def run(ctx):
         n = int(10 ** r.uniform(2, 5 if j % 50 == 0 else 3.3))
         kind = j % 4
         if kind == 0:
-            x = r.integers(0, int(r.integers(2, 30)), n)
+            x = r.integers(0, int(r.integers(2, 30)), n).astype(["int64", "uint8", "uint64", "int16", "uint32"][j % 5])
         elif kind == 1:
             x = numpy.round(r.normal(0, 3, n), int(r.integers(0, 2)))
         elif kind == 2:
             x = r.poisson(r.uniform(0.5, 50), n).astype(float)
         else:
             x = r.choice(r.normal(0, 1e3, int(r.integers(1, 8))), n)
-        u = numpy.unique(x)
+        u = numpy.unique(x).astype(float)          # query values are plain numbers (unsigned sample dtypes must not wrap them)
         qs = [u[0], u[-1], u[len(u) // 2], u[0] - 1, u[-1] + 1, float(r.choice(u)) + 0.25 * (1 if u.size == 1 else float(numpy.min(numpy.diff(u)))),
               float(r.uniform(u[0] - 1, u[-1] + 1))]
         for qi, q in enumerate(qs):
